@@ -2,7 +2,7 @@
    k = K - 6; B k = 2^(2^K); val is the integer a limb tree denotes; wf = every limb in [0, 2^64);
    thr = __RECINT_THRESHOLD_KARA - 6 (every theorem holds for every threshold). *)
 From Coq Require Import ZArith.
-From C06 Require Import Model ProofsBase ProofsRepr ProofsAdd ProofsBits ProofsShift ProofsMul ProofsKara ProofsMulTop ProofsProps.
+From C06 Require Import Model ProofsBase ProofsRepr ProofsAdd ProofsBits ProofsShift ProofsMul ProofsKara ProofsMulTop ProofsSubW ProofsDiv ProofsDivTop ProofsDivFinal ProofsProps.
 Local Open Scope Z_scope.
 
 Theorem C06_representation : Repr_exact.            Proof. exact repr_exact. Qed.
@@ -49,3 +49,17 @@ Theorem C06_shift_by_one_exact : Shift1_exact.      Proof. exact shift1_exact. Q
 Print Assumptions C06_shift_by_one_exact.
 Theorem C06_shift_left_widening_exact : Shl_ext_exact. Proof. exact shl_ext_exact. Qed.
 Print Assumptions C06_shift_left_widening_exact.
+Theorem C06_sub_word_exact : Sub_word_exact.        Proof. exact sub_word_exact. Qed.
+Print Assumptions C06_sub_word_exact.
+Theorem C06_decrement_exact : Sub_1_exact.          Proof. exact sub_1_exact. Qed.
+Print Assumptions C06_decrement_exact.
+Theorem C06_limb_division_exact : Udiv_exact.       Proof. exact udiv_exact. Qed.
+Print Assumptions C06_limb_division_exact.
+Theorem C06_div_3_by_2_exact : Div32_exact.         Proof. exact div32_exact. Qed.
+Print Assumptions C06_div_3_by_2_exact.
+Theorem C06_div_2_by_1_exact : Div21_exact.         Proof. exact div21_exact. Qed.
+Print Assumptions C06_div_2_by_1_exact.
+Theorem C06_normalization_exact : Norm_exact.       Proof. exact norm_exact. Qed.
+Print Assumptions C06_normalization_exact.
+Theorem C06_euclidean_division_exact : Div_exact.   Proof. exact div_exact. Qed.
+Print Assumptions C06_euclidean_division_exact.
